@@ -19,6 +19,7 @@ import (
 	"strings"
 
 	"diagonal.works/b6"
+	"diagonal.works/b6/encoding"
 	"diagonal.works/b6/ingest/compact"
 	"verif/harness/vh"
 )
@@ -582,8 +583,10 @@ func layoutsTool(args []string) int {
 	maxLog := fs.Int("maxlog", 40, "largest log2(count) to ask for")
 	fs.Parse(args)
 	bits := map[int]uint64{}
+	requested := map[int]bool{}
 	ask := func(c uint64) {
 		b := compact.VerifBucketBitsForCount(c)
+		requested[b] = true
 		if old, ok := bits[b]; !ok || c < old {
 			bits[b] = c
 		}
@@ -619,11 +622,35 @@ func layoutsTool(args []string) int {
 	}
 	sort.Ints(bl)
 	sort.Ints(tl)
+	// the layout a map really gets is the one its builder records (NewUint64MapBuilder may adjust what it
+	// is asked for); asked of the real constructor for small maps, identical for large ones
+	type lt struct{ B, T int }
+	eff := map[lt]bool{}
+	for _, b := range bl {
+		for _, t := range tl {
+			e := lt{b, t}
+			if b <= 12 {
+				l := encoding.NewUint64MapBuilder(b, t).Layout
+				e = lt{l.BucketBits, l.TagBits}
+			}
+			eff[e] = true
+		}
+	}
+	var effl [][2]int
+	for e := range eff {
+		effl = append(effl, [2]int{e.B, e.T})
+	}
+	sort.Slice(effl, func(i, j int) bool {
+		if effl[i][0] != effl[j][0] {
+			return effl[i][0] < effl[j][0]
+		}
+		return effl[i][1] < effl[j][1]
+	})
 	ex := map[string]uint64{}
 	for b, c := range bits {
 		ex[fmt.Sprint(b)] = c
 	}
-	json.NewEncoder(os.Stdout).Encode(map[string]interface{}{"bucket_bits": bl, "tag_bits": tl, "tag_bits_by_type": tb, "smallest_count_for_bucket_bits": ex})
+	json.NewEncoder(os.Stdout).Encode(map[string]interface{}{"bucket_bits": bl, "tag_bits": tl, "tag_bits_by_type": tb, "smallest_count_for_bucket_bits": ex, "layouts": effl})
 	return 0
 }
 
